@@ -360,6 +360,13 @@ TEMPLATES = [
     ("self_nilable_step", True, "f = #'int {{ | =0 => 0 | =n => {B}n {{ | =0 => [] | [~, 1] %(SUB)s }} =m, m ^ }}, {N} f"),
     ("self_call_then_tail", True, "dec = #'int {{ [~, 1] %(SUB)s }}, f = #'int {{ | =0 => 0 | =n => {B}n dec ^ }}, {N} f"),
     ("self_partial", True, "f = #[n: 'int, acc: 'int] {{ | =(n: 0) => $.acc | {B}[n: [$.n, 1] %(SUB)s, acc: [$.acc, 2] %(ADD)s] ^ }}, [n: {N}, acc: 0] f"),
+    # --- bare `^` in a NILARY function: a server loop driven by messages (the program's own process
+    # sends to itself, `n .`; the first round finds the mailbox empty and posts the count) ------------
+    ("nilary_server", True, "srv = #{{ ! [#'int, 0] {{ | =0 => Done | =('int)n => {B}[n, 1] %(SUB)s ., [] ^ | {N} ., [] ^ }} }}, srv"),
+    ("nilary_server_flowing_arg", True, "srv = #{{ ! [#'int, 0] {{ | =0 => Done | =('int)n => {B}[n, 1] %(SUB)s ., ^ | {N} ., ^ }} }}, srv"),
+    ("nilary_server_block2", False, "srv = #{{ ! [#'int, 0] {{ | =0 => Done | ='int => {{ {{ [~, 1] %(SUB)s . }}, {{ [] ^ }} }} | {N} ., [] ^ }} }}, srv"),
+    ("nilary_server_bound", True, "srv = #{{ ! [#'int, 0] {{ | =[] => -1 | =('int)k => k }} =m, m {{ | =0 => Done | =-1 => {N} ., [] ^ | =n => {B}[n, 1] %(SUB)s ., [] ^ }} }}, srv"),
+    ("nilary_server_bin_msg", False, "srv = #{{ ! [#['int, 'bin], 0] {{ | =[0, b] => b | =[n, b] => [[n, 1] %(SUB)s, [b, 0x01] __binary_concat__ [0x02, 0x03] __binary_concat__] ., [] ^ | [{N}, 0x00] ., [] ^ }} }}, srv"),
     # --- `^f` (named) -------------------------------------------------------------------------
     ("named_hop", True, "g = #'int {{ | =0 => 0 | =n => {B}[n, 1] %(SUB)s ^ }}, f = #'int {{ [~, 1] %(ADD)s ^g }}, {N} f"),
     ("named_mutual", True,
@@ -995,6 +1002,15 @@ def select_c07(tier):
     # analyses the standard library whole and, of the rest, one representative per distinct function
     # shape (see shape_key) -- the test suite repeats the same library functions thousands of times.
     gen = corpus_generated(1500 if tier == "thorough" else 250, common.seed())
+    # the language engine's seeded generator (spreads, nested blocks/branches, patterns, closures, tail calls ...)
+    try:
+        import seqgen, seqast
+        for g in seqgen.generate_programs(common.seed(), 12000 if tier == "thorough" else 2500):
+            if g["known"]:
+                continue        # syntactic trigger of a language defect pinned under C02 (known_findings.json)
+            gen.append({"id": "seq:" + g["id"], "lines": [seqast.render(g["ast"])], "source": "generated"})
+    except Exception as e:      # optional
+        info["seqgen_unavailable"] = str(e)[:100]
     return fixed + tests + loose + gen, info
 
 
